@@ -1727,7 +1727,9 @@ impl<P: Payload> World<P> {
             let v = (i % 97) as u32;
             let payload = self.mk(serial, v);
             let arena = &mut self.arena;
-            let via = i % 3;
+            // `append` walks the ancestors of the parent (O(depth)): on long chains use the O(1) append_value
+            // beyond the first few hundred nodes, otherwise a 70 000-deep chain costs 10^9 steps
+            let via = if i > 600 && matches!(shape, 1 | 4 | 5) { 0 } else { i % 3 };
             let r = catch_unwind(AssertUnwindSafe(|| match (parent_slot, via) {
                 (Some(p), 0) => self.m.n[p].id.append_value(payload, arena),
                 (Some(p), 1) => {
